@@ -100,11 +100,17 @@ pub struct Gen {
     pub target_pop: usize,
     pub allow_noncanon_data: bool,
     pub allow_script: bool,
+    /// NextId / Merge / Script are not drawn before this many ops (C08: aligned allocators at the first save).
+    pub allocator_ops_after: usize,
+    pub drawn: usize,
+    /// Extra weight for saveload / clone (twin monitors).
+    pub boost_save: u32,
+    pub boost_clone: u32,
 }
 
 // no 'Δ': v_print() uses it as the data marker, a label Δ would make its output ambiguous
 const GREEK: [char; 8] = ['x', 'ρ', 'σ', 'π', 'φ', 'δ', '𝜑', 'ξ'];
-const WORDS: [&str; 10] = ["foo", "bar", "hello", "ab", "αβγδεζηθ", "x1", "12345678", "+b", "q-r_s", "ωω"];
+const WORDS: [&str; 10] = ["foo", "bar", "hello", "ab", "βγδεζηθι", "x1", "12345678", "+b", "q-r_s", "ωω"];
 
 pub fn label_universe(rng: &mut Rng, k: usize) -> Vec<Label> {
     let mut out: Vec<Label> = vec![];
@@ -171,6 +177,10 @@ impl Gen {
             target_pop,
             allow_noncanon_data: true,
             allow_script: true,
+            allocator_ops_after: 0,
+            drawn: 0,
+            boost_save: 0,
+            boost_clone: 0,
         }
     }
 
@@ -443,6 +453,14 @@ impl Gen {
         if !self.allow_script {
             w.0[K_SCRIPT] = 0;
         }
+        self.drawn += 1;
+        if self.drawn <= self.allocator_ops_after {
+            w.0[K_NEXT] = 0;
+            w.0[K_MERGE] = 0;
+            w.0[K_SCRIPT] = 0;
+        }
+        w.0[K_SAVE] += self.boost_save;
+        w.0[K_CLONE] += self.boost_clone;
         for _ in 0..40 {
             let k = self.rng.weighted(&w.0);
             let op = match k {
